@@ -18,7 +18,7 @@ import (
 var rec = vh.NewRecorder("C01", "concurrent-clients",
 	"sets of 2-64 (thorough: up to 256) concurrent client requests with generated start offsets, request/response body sizes "+
 		"(0..1MiB, around 4096), backend latencies 0-100ms (so completion order is a generated permutation of arrival order), "+
-		"statuses and framings, some clients giving up (closing their connection) after 1-200ms while others arrive later, against server+agent -race binaries run with generated GOMAXPROCS; every request carries a unique "+
+		"statuses and framings, some clients giving up (closing their connection) after 1-200ms while others arrive later, in a third of the cases groups of clients sending identical values in 1-3 request-correlation header fields (X-Request-Id, Idempotency-Key, Traceparent, Cookie, ...), against server+agent -race binaries run with generated GOMAXPROCS; every request carries a unique "+
 		"token, the backend echoes it into status-independent places plus a per-invocation nonce; non-trivial = at least 2 requests "+
 		"measured simultaneously in flight at the backend; distinct = SHA-256 of the canonical case")
 
@@ -37,12 +37,20 @@ type Req struct {
 	// bytes of the response body; the backend streams the rest of a large chunked body (and its trailers) after a pause.
 	AbandonMidBody bool `json:"abandon_mid_body,omitempty"`
 	MidBodyTail    int  `json:"mid_body_tail_bytes,omitempty"`
+	// Group > 0: this client sends the case's correlation headers with the value of its group, i.e. the same values as
+	// every other client of the group (what a retrying client library, a shared upstream or a browser session does)
+	Group int `json:"corr_group,omitempty"`
 }
 
 type Case struct {
 	Procs int   `json:"gomaxprocs"`
 	Reqs  []Req `json:"reqs"`
+	// Corr: names of request-correlation header fields that the clients of one group send with identical values
+	Corr []string `json:"corr_headers,omitempty"`
 }
+
+var corrNames = []string{"X-Request-Id", "X-Request-ID", "X-Correlation-Id", "Request-Id", "Idempotency-Key", "Traceparent",
+	"X-Cloud-Trace-Context", "X-Amzn-Trace-Id", "Cookie", "Authorization", "If-None-Match", "X-Forwarded-For", "X-Session-Id"}
 
 var sizes = []int{0, 1, 100, 4095, 4096, 4097, 65536}
 
@@ -89,6 +97,18 @@ func genCase(t *rapid.T) Case {
 			big++
 		}
 		c.Reqs = append(c.Reqs, r)
+	}
+	if rapid.IntRange(0, 2).Draw(t, "corr") == 0 {
+		c.Corr = rapid.SliceOfNDistinct(rapid.SampledFrom(corrNames), 1, 3, rapid.ID[string]).Draw(t, "corrNames")
+		ngroups := rapid.IntRange(1, 3).Draw(t, "ngroups")
+		for i := range c.Reqs {
+			if rapid.IntRange(0, 3).Draw(t, "inGroup") != 0 {
+				c.Reqs[i].Group = rapid.IntRange(1, ngroups).Draw(t, "group")
+				if c.Reqs[i].LatencyMs < 20 && c.Reqs[i].AbandonMs == 0 {
+					c.Reqs[i].LatencyMs = rapid.SampledFrom([]int{20, 100, 300}).Draw(t, "corrLatency")
+				}
+			}
+		}
 	}
 	return c
 }
@@ -204,6 +224,16 @@ func runOnce(t vh.TB, c *Case, mult int) vh.Outcome {
 			}
 			var b bytes.Buffer
 			fmt.Fprintf(&b, "%s /c01/%s?tok=%s HTTP/1.1\r\nHost: c01.example\r\nAccept-Encoding: identity\r\n%s: %s\r\n", r.Method, toks[i], toks[i], vh.TokenHeader, toks[i])
+			for _, name := range c.Corr {
+				v := fmt.Sprintf("corr-%s-g%d", toks[0], r.Group)
+				if r.Group == 0 {
+					v = "corr-" + toks[i]
+				}
+				if name == "Cookie" {
+					v = "sid=" + v
+				}
+				fmt.Fprintf(&b, "%s: %s\r\n", name, v)
+			}
 			if r.Method != "GET" {
 				body := append([]byte(toks[i]+"|"), vh.Payload("req-"+toks[i], r.ReqSize)...)
 				fmt.Fprintf(&b, "Content-Length: %d\r\n\r\n", len(body))
@@ -244,6 +274,9 @@ func runOnce(t vh.TB, c *Case, mult int) vh.Outcome {
 	maxIn := e.Backend.MaxIn.Load()
 	o.NonTrivial = maxIn >= 2
 	o.Classes = append(o.Classes, fmt.Sprintf("gomaxprocs=%d", c.Procs))
+	if len(c.Corr) > 0 {
+		o.Classes = append(o.Classes, "clients-share-correlation-header-values")
+	}
 	switch {
 	case maxIn >= 32:
 		o.Classes = append(o.Classes, "in-flight>=32")
